@@ -477,5 +477,13 @@ def r06_10(ctx):
     hex_prefix_both_cases(ctx, mods)
 
 
+def r06_11(ctx):
+    """R06.11 the flags computed together with a numeric value are recomputed with it (C03 R03.7): a `set` flag left over
+    from an earlier evaluation disables the user value and the defaults, and the option exposes '' although something
+    provides a value."""
+    from . import c03
+    from .common import delegate
+    delegate(ctx, c03.r03_7, lambda c: True)
+
 def rules():
-    return [("R06.10", r06_10, 12), ("R06.6", r06_6, 14), ("R06.7", r06_7, 3), ("R06.1", r06_1, 7), ("R06.2", r06_2, 6), ("R06.3", r06_3, 2), ("R06.4", r06_4, 20), ("R06.5", r06_5, 3), ("R06.8", r06_8, 12), ("R06.9", r06_9, 1)]
+    return [("R06.11", r06_11, 3), ("R06.10", r06_10, 12), ("R06.6", r06_6, 14), ("R06.7", r06_7, 3), ("R06.1", r06_1, 7), ("R06.2", r06_2, 6), ("R06.3", r06_3, 2), ("R06.4", r06_4, 20), ("R06.5", r06_5, 3), ("R06.8", r06_8, 12), ("R06.9", r06_9, 1)]
